@@ -28,13 +28,13 @@ class EnumOrdinalEncoder(QuasiLazyEncoder):
         else:
             i_selected = np.arange(matrix.shape[0])
 
-        design_vectors = np.array([i_selected]).T
+        design_vectors = np.array([i_selected]).T[:, :len(design_vars)]  # No design variable for a single matrix
         matrices = matrix[i_selected, :, :]
         return design_vectors, matrices
 
     def _do_get_all_design_vectors(self, existence: NodeExistence, matrix: np.ndarray, design_vars: List[DiscreteDV]) \
             -> np.ndarray:
-        design_vectors = np.array([np.arange(matrix.shape[0])]).T
+        design_vectors = np.array([np.arange(matrix.shape[0])]).T[:, :len(design_vars)]  # No design variable for a single matrix
         return design_vectors
 
     def __repr__(self):
